@@ -547,6 +547,39 @@ theorem header_bind_single (pre a : Str)
   rw [hjr]
   simp only [toSnakeCase_strip, hb, bind_is_no_alias, bind_is_column, if_true]
 
+/-! ## noninterference on raw cells -/
+
+/-- `c'` is an edit of the raw row `c` that keeps its place in the structure: whatever the row number
+    and `table_list` state, both rows classify to a single row of the same shape (same kind, same
+    names) and leave the same state behind — e.g. the same row with other logic cells. -/
+def SameShapeEdit (dl : Str) (key : List (Str × List Str)) (lists : List Str) (c c' : List (Str × Str)) : Prop :=
+  ∀ n tl kc tl2, rowRKs dl key lists n tl c = .ok (kc, tl2) →
+    ∃ r r', kc = [r] ∧ rowRKs dl key lists n tl c' = .ok ([r'], tl2) ∧ sameShape r r'
+
+/-- **noninterference_cells.**  From the raw sheet: replace the cells of row `j` (= `c`, after `pre`) by
+    `c'` (a same-shape edit).  If both sheets convert, their bind lists are `a ++ m ++ b` and
+    `a ++ m' ++ b`: every bind that does not belong to row `j` is identical, attribute for attribute. -/
+theorem noninterference_cells (root dl : Str) (key : List (Str × List Str)) (lists : List Str)
+    (pre post : List (List (Str × Str))) (c c' : List (Str × Str)) (he : SameShapeEdit dl key lists c c')
+    (ks ks' : List RK) (bs bs' : List Bind)
+    (hk : processRows dl key lists 2 .off (pre ++ c :: post) = .ok ks)
+    (hk' : processRows dl key lists 2 .off (pre ++ c' :: post) = .ok ks')
+    (hb : bindsOfRows root ks = .ok bs) (hb' : bindsOfRows root ks' = .ok bs') :
+    ∃ a m m' b r, bs = a ++ m ++ b ∧ bs' = a ++ m' ++ b ∧
+      (∃ n tl tl2, rowRKs dl key lists n tl c = .ok ([r], tl2)) ∧
+      m.length ≤ (rkNames r).length ∧ m'.length ≤ (rkNames r).length := by
+  obtain ⟨kpre, kc, kpost, tl1, tl2, hc, hks, hall⟩ := processRows_frame dl key lists pre 2 .off c post ks hk
+  obtain ⟨r, r', hkc, hc', hs⟩ := he _ _ _ _ hc
+  have h2 := hall c' [r'] hc'
+  rw [hk'] at h2
+  simp only [Except.ok.injEq] at h2
+  subst hkc
+  subst hks
+  subst h2
+  simp only [List.append_assoc, List.singleton_append] at hb hb'
+  obtain ⟨a, m, m', b, e1, e2, l1, l2⟩ := noninterference_form root kpre kpost r r' hs bs bs' hb hb'
+  exact ⟨a, m, m', b, r, e1, e2, ⟨_, _, _, hc⟩, l1, l2⟩
+
 /-! ## parameter-derived data type of `range` -/
 
 /-- **range_decimal_iff.**  A `range` row gets `type = decimal` iff *some* parameter — written in any
@@ -623,6 +656,18 @@ example : (∀ c ∈ s " BIND ", c ≠ ':') ∧ toSnakeCase (s " BIND ") = s "bi
   decide +kernel
 
 example : processHeader false surveyAliases surveyColumns (s "Bind : foo ") = some (.str (s "bind"), [s "bind", s "foo"]) := by
+  decide +kernel
+
+/-- `noninterference_cells`: a row and the same row with another `relevant` cell classify to single rows
+    of the same shape, from the same state to the same state -/
+example :
+    (match headerKey [s "type", s "name", s "relevant"] with
+     | .ok key =>
+       (match rowRKs (s "default") key [] 2 .off [(s "type", s "text"), (s "name", s "q"), (s "relevant", s ". > 1")],
+              rowRKs (s "default") key [] 2 .off [(s "type", s "text"), (s "name", s "q"), (s "relevant", s "1 = 1")] with
+        | .ok ([.qs [q1]], .off), .ok ([.qs [q2]], .off) => q1.name == q2.name && q1.name == s "q"
+        | _, _ => false)
+     | _ => false) = true := by
   decide +kernel
 
 /-- `header_to_bind`: a spelling with case and spacing noise -/
